@@ -21,15 +21,15 @@ import (
 
 type lkey int
 
-func (k lkey) Hash() uint                    { return uint(k) }
-func (k lkey) Equals(o hmap.LinkedKey) bool  { x, ok := o.(lkey); return ok && x == k }
-func (k lkey) String() string                { return "L" + strconv.Itoa(int(k)) }
+func (k lkey) Hash() uint                   { return uint(k) }
+func (k lkey) Equals(o hmap.LinkedKey) bool { x, ok := o.(lkey); return ok && x == k }
+func (k lkey) String() string               { return "L" + strconv.Itoa(int(k)) }
 
 type c10Type struct {
 	Name     string
-	Variants int                         // constructor variants
+	Variants int                           // constructor variants
 	New      func(variant int) interface{} // fresh instance
-	HasCap   bool                        // variant>0 gives a tiny initial capacity
+	HasCap   bool                          // variant>0 gives a tiny initial capacity
 }
 
 var c10Types = []c10Type{
